@@ -2,6 +2,7 @@ SPECIFICATION MCSpec
 CONSTANTS
   NIds = 3
   EmitEdges = FALSE
+  EmitOneIn = 1
   Ids <- MCIds
   Owner <- MCOwner
   Index <- MCIndex
